@@ -11,4 +11,13 @@ namespace L21.Determ
 def sortEntries {α : Type} (entries : List (Int × α)) : List (Int × α) :=
   entries.mergeSort (fun a b => decide (a.1 ≤ b.1))
 
+/-- the sort key of `Layers::sorted`: (layer number, slot-map key) -/
+abbrev LKey := Int × Nat
+
+def lkLe (a b : LKey) : Bool := decide (a.1 < b.1) || (decide (a.1 = b.1) && decide (a.2 ≤ b.2))
+
+/-- `Layers::sorted` with the code's tie-break -/
+def sortedK {α : Type} (entries : List (LKey × α)) : List (LKey × α) :=
+  entries.mergeSort (fun a b => lkLe a.1 b.1)
+
 end L21.Determ
